@@ -6,7 +6,9 @@ import (
 	"go/token"
 	"go/types"
 	"math"
+	"sort"
 	"strings"
+	"unicode"
 
 	"golang.org/x/tools/go/ssa"
 )
@@ -1106,4 +1108,930 @@ func ruleParserKeepsOperators(c *Ctx, rule string) {
 	}
 	r.Ob(rule, "functions of ast that return an expression", "").OK(fmt.Sprintf("%d function(s) examined for returns that unwrap a node", nfn))
 	r.Floor(rule, "functions that return an expression", nfn, 1)
+}
+
+// ---------------------------------------------------------------------------------------------
+// C13.R18: between the copies of an unrolled loop body every declaration of the previous copy is forgotten.
+//
+// C14.R16 asks that the generator takes the names the previous copy of a loop body declared out of GenState.variables before it
+// generates the next copy. Captures are entered there with -1, inline subroutines with their offset. A generator that selects what
+// it forgets by the value a name was entered with (`target == -1`) forgets the captures only: `exactly 2 ({'a'} = t)` is a
+// `name clash` although `{'a'} = t` written out twice... is not what the program says - it says one definition, repeated - and
+// `exactly 2 ('a')` compiles. Decided on the shape: if, in the function that generates a loop node (or a closure of it), a test
+// of the *value* of an entry of GenState.variables against a constant k stands in front of what is remembered for forgetting,
+// then every function reachable from the body generator that refuses a present name and enters it must enter it with k.
+func ruleUnrolledBodiesForgetEveryDeclaration(c *Ctx, rule string) {
+	r := c.R
+	gs := c.NamedType("bytecode", "GenState")
+	loopT := c.NamedType("ast", "AstLoop")
+	if gs == nil || loopT == nil {
+		r.Ob(rule, "anchor bytecode.GenState / ast.AstLoop", "").Und("not found")
+		return
+	}
+	onVariables := func(v ssa.Value) bool {
+		for _, s := range traceAddr(v).Steps {
+			if s.Kind == "field" && s.Field == "variables" && types.Identical(s.Struct, gs) {
+				return true
+			}
+		}
+		return false
+	}
+	// declarers and the value they enter a name with: a constant, or "computed"
+	type entered struct {
+		k        int64
+		computed bool
+		pos      token.Pos
+	}
+	declarers := map[*ssa.Function][]entered{}
+	for _, fn := range c.SrcFuncs("bytecode") {
+		looks := false
+		var ents []entered
+		instrsOf(fn, func(in ssa.Instruction) {
+			switch x := in.(type) {
+			case *ssa.Lookup:
+				if x.CommaOk && onVariables(x.X) {
+					looks = true
+				}
+			case *ssa.MapUpdate:
+				if onVariables(x.Map) {
+					if k, ok := constInt(x.Value); ok {
+						ents = append(ents, entered{k: k, pos: x.Pos()})
+					} else {
+						ents = append(ents, entered{computed: true, pos: x.Pos()})
+					}
+				}
+			}
+		})
+		if looks && len(ents) > 0 {
+			declarers[fn] = ents
+		}
+	}
+	n := 0
+	for _, fn := range c.SrcFuncs("bytecode") {
+		takesLoop := false
+		for _, p := range fn.Params {
+			if types.Identical(deref(p.Type()), loopT) {
+				takesLoop = true
+			}
+		}
+		if !takesLoop {
+			continue
+		}
+		scope := []*ssa.Function{fn}
+		scope = append(scope, fn.AnonFuncs...)
+		for _, f := range scope {
+			instrsOf(f, func(in ssa.Instruction) {
+				iff, ok := in.(*ssa.If)
+				if !ok {
+					return
+				}
+				// the conjuncts of the condition: `!before[name] && target == -1` is two blocks; look at this one
+				cmp, ok := iff.Cond.(*ssa.BinOp)
+				if !ok || (cmp.Op != token.EQL && cmp.Op != token.NEQ) {
+					return
+				}
+				k, isConst := constInt(cmp.Y)
+				ex, isEx := cmp.X.(*ssa.Extract)
+				if !isConst || !isEx || ex.Index != 2 {
+					return
+				}
+				nx, ok := ex.Tuple.(*ssa.Next)
+				if !ok {
+					return
+				}
+				rg, ok := nx.Iter.(*ssa.Range)
+				if !ok || !onVariables(rg.X) {
+					return
+				}
+				n++
+				ob := r.Ob(rule, fmt.Sprintf("%s: what is forgotten between the copies of a loop body does not depend on how a name was entered", fnName(fn)), c.pos(cmp.Pos()))
+				var other []string
+				for d, ents := range declarers {
+					for _, e := range ents {
+						if e.computed || e.k != k {
+							other = append(other, fmt.Sprintf("%s (%s)", fnName(d), c.pos(e.pos)))
+						}
+					}
+				}
+				sort.Strings(other)
+				if len(other) == 0 {
+					ob.OKnt(fmt.Sprintf("every function that refuses a present name enters it with %d", k))
+				} else {
+					ob.Bad(fmt.Sprintf("only the names entered with %d are remembered for forgetting, but %s refuses a present name and enters it with another value: a body that declares such a name (an inline subroutine) is a `name clash` in its second copy - `exactly 2 ({'a'} = t)` is rejected where `exactly 2 ('a')` compiles", k, strings.Join(uniq(other), ", ")))
+				}
+			})
+		}
+	}
+	if n == 0 {
+		r.Ob(rule, "selection of the names to forget", "").OK("no function that generates a loop node selects the names it forgets by the value they were entered with")
+	}
+}
+
+// ---------------------------------------------------------------------------------------------
+// C16.R14 / C15.R15: the kind of a token is decided while it is being read.
+//
+// What a token is - a STRING, an IDENTIFIER, a keyword - follows from the state in which the lexer's state machine finished it. A
+// store into Token.TokenType of a token that is already finished (the result of a call, an element of the token list, a parameter
+// that a caller fills with one of those) re-types it by its text alone: the string literal 'space' becomes the keyword. Stores into
+// a token that the same function has just made are the state machine's own.
+func ruleTokenKindDecidedOnce(c *Ctx, rule string) {
+	r := c.R
+	tokenT := c.NamedType("ast", "Token")
+	if tokenT == nil {
+		r.Ob(rule, "anchor ast.Token", "").Und("not found")
+		return
+	}
+	// 0 = made here, 1 = a finished token, 2 = cannot tell
+	var origin func(v ssa.Value, d int) (int, string)
+	origin = func(v ssa.Value, d int) (int, string) {
+		if d > 4 {
+			return 2, "too deep"
+		}
+		switch x := v.(type) {
+		case *ssa.Alloc:
+			return 0, ""
+		case *ssa.Call:
+			return 1, "the result of " + shortCallee(x)
+		case *ssa.Extract:
+			if call, ok := x.Tuple.(*ssa.Call); ok {
+				return 1, "a result of " + shortCallee(call)
+			}
+		case *ssa.UnOp:
+			if x.Op == token.MUL {
+				if _, ok := x.X.(*ssa.IndexAddr); ok {
+					return 1, "an element of a token list"
+				}
+				if al, ok := x.X.(*ssa.Alloc); ok {
+					// a local that holds the pointer: what was stored into it
+					worst, why := 0, ""
+					for _, ref := range *al.Referrers() {
+						if st, ok := ref.(*ssa.Store); ok && st.Addr == ssa.Value(al) {
+							if k, w := origin(st.Val, d+1); k > worst || (k == 1 && worst != 1) {
+								if k == 1 {
+									return k, w
+								}
+								worst, why = k, w
+							}
+						}
+					}
+					return worst, why
+				}
+			}
+		case *ssa.Phi:
+			worst, why := 0, ""
+			for _, e := range x.Edges {
+				k, w := origin(e, d+1)
+				if k == 1 {
+					return k, w
+				}
+				if k > worst {
+					worst, why = k, w
+				}
+			}
+			return worst, why
+		case *ssa.Parameter:
+			fn := x.Parent()
+			idx := -1
+			for i, p := range fn.Params {
+				if p == x {
+					idx = i
+				}
+			}
+			worst, why, ncall := 0, "", 0
+			for caller := range c.allFns {
+				if !c.isRepoFn(caller) {
+					continue
+				}
+				for _, cl := range callsTo(caller, fn) {
+					ncall++
+					if idx < 0 || idx >= len(cl.Call.Args) {
+						return 2, "a call that cannot be matched"
+					}
+					k, w := origin(cl.Call.Args[idx], d+1)
+					if k == 1 {
+						return 1, w + ", handed in by " + fnName(caller)
+					}
+					if k > worst {
+						worst, why = k, w
+					}
+				}
+			}
+			if ncall == 0 {
+				return 2, "a parameter of a function nothing calls directly"
+			}
+			return worst, why
+		}
+		return 2, fmt.Sprintf("%T", v)
+	}
+	n := 0
+	for _, fn := range c.SrcFuncs("ast") {
+		k := 0
+		instrsOf(fn, func(in ssa.Instruction) {
+			st, ok := in.(*ssa.Store)
+			if !ok {
+				return
+			}
+			fa, ok := st.Addr.(*ssa.FieldAddr)
+			if !ok || !types.Identical(deref(fa.X.Type()), tokenT) || fieldName(tokenT, fa.Field) != "TokenType" {
+				return
+			}
+			n++
+			k++
+			ob := r.Ob(rule, fmt.Sprintf("%s: store #%d into Token.TokenType is the state machine's own", fnName(fn), k), c.pos(st.Pos()))
+			switch kind, why := origin(fa.X, 0); kind {
+			case 0:
+				ob.OKnt("the token was made in this function (or by the caller that hands it in)")
+			case 1:
+				ob.Bad("the kind of a finished token (" + why + ") is overwritten: what a token is then depends on its text alone, and a string literal that spells a keyword or an alias becomes that keyword")
+			default:
+				ob.Und("where the token comes from cannot be followed (" + why + ")")
+			}
+		})
+	}
+	r.Floor(rule, "stores into Token.TokenType", n, 5)
+}
+
+// ---------------------------------------------------------------------------------------------
+// C09.R26: the character in front of the current position is read only where there is one.
+//
+// READAT(currentFileOffset-k, ..) at offset 0 seeks to a negative position and panics. Every such read (directly, or through a
+// helper that only forwards it - the obligation then lies with the helper's call sites) stands behind something that speaks about
+// the offset: a dominating comparison of currentFileOffset with a constant, or a dominating CONSUME. A read with nothing of the
+// kind in front of it is reached at the start of the input: that is the witness. (The arithmetic of the guards is not checked.)
+func ruleLookBehindGuarded(c *Ctx, rule string) {
+	r := c.R
+	readAt := c.Method("engine", "SearchEngineState", "READAT")
+	consume := c.Method("engine", "SearchEngineState", "CONSUME")
+	if readAt == nil || consume == nil {
+		r.Ob(rule, "anchor engine.(*SearchEngineState).READAT/CONSUME", "").Und("not found")
+		return
+	}
+	isOff := func(v ssa.Value) bool { return strings.HasSuffix(exprStr(v), ".currentFileOffset") }
+	lookBehind := func(call *ssa.Call) bool {
+		if call.Call.StaticCallee() != readAt || len(call.Call.Args) < 2 {
+			return false
+		}
+		bo, ok := call.Call.Args[1].(*ssa.BinOp)
+		if !ok || bo.Op != token.SUB || !isOff(bo.X) {
+			return false
+		}
+		k, ok := constInt(bo.Y)
+		return ok && k > 0
+	}
+	speaksOfOffset := func(v ssa.Value) bool {
+		bo, ok := v.(*ssa.BinOp)
+		if !ok {
+			return false
+		}
+		_, cx := bo.X.(*ssa.Const)
+		_, cy := bo.Y.(*ssa.Const)
+		return (isOff(bo.X) && cy) || (isOff(bo.Y) && cx)
+	}
+	// a predicate of the state that compares the offset with a constant (`es.atFileStart()`), two levels
+	var predicate func(f *ssa.Function, d int) bool
+	predicate = func(f *ssa.Function, d int) bool {
+		if f == nil || !c.isRepoFn(f) || len(f.Blocks) == 0 || d > 2 {
+			return false
+		}
+		found := false
+		instrsOf(f, func(in ssa.Instruction) {
+			if v, ok := in.(ssa.Value); ok && speaksOfOffset(v) {
+				found = true
+			}
+			if sc := staticCallee(in); sc != nil && sc != f && !found && predicate(sc, d+1) {
+				found = true
+			}
+		})
+		return found
+	}
+	guarded := func(fn *ssa.Function, at *ssa.Call) bool {
+		for _, l := range domConds(fn, at.Block()) {
+			v := l.Cond
+			if u, ok := v.(*ssa.UnOp); ok && u.Op == token.NOT {
+				v = u.X
+			}
+			if speaksOfOffset(v) {
+				return true
+			}
+			if call, ok := v.(*ssa.Call); ok && predicate(call.Call.StaticCallee(), 0) {
+				return true
+			}
+		}
+		// the short-circuit form `offset != 0 && READAT(...)` puts the test in a dominating block as well; a CONSUME in front
+		for _, b := range fn.Blocks {
+			if b != at.Block() && !b.Dominates(at.Block()) {
+				continue
+			}
+			for _, in := range b.Instrs {
+				if in == ssa.Instruction(at) {
+					break
+				}
+				if staticCallee(in) == consume {
+					return true
+				}
+			}
+		}
+		return false
+	}
+	// helpers that only forward the read: one block, the result returned
+	forwards := map[*ssa.Function]bool{}
+	for _, fn := range c.SrcFuncs("engine") {
+		if len(fn.Blocks) != 1 {
+			continue
+		}
+		instrsOf(fn, func(in ssa.Instruction) {
+			if call, ok := in.(*ssa.Call); ok && lookBehind(call) {
+				forwards[fn] = true
+			}
+		})
+	}
+	n := 0
+	for _, fn := range c.SrcFuncs("engine") {
+		if forwards[fn] {
+			continue
+		}
+		k := 0
+		instrsOf(fn, func(in ssa.Instruction) {
+			call, ok := in.(*ssa.Call)
+			if !ok {
+				return
+			}
+			sc := call.Call.StaticCallee()
+			if !(lookBehind(call) || (sc != nil && forwards[sc])) {
+				return
+			}
+			n++
+			k++
+			what := "READAT(currentFileOffset-k)"
+			if sc != readAt {
+				what = sc.Name() + "() (reads in front of the position)"
+			}
+			ob := r.Ob(rule, fmt.Sprintf("%s: look-behind #%d stands behind a test of the position", fnName(fn), k), c.pos(call.Pos()))
+			if guarded(fn, call) {
+				ob.OKnt("a comparison of currentFileOffset with a constant, or a CONSUME, dominates the read")
+			} else {
+				ob.Bad(what + " is reached without any test of currentFileOffset and without a CONSUME in front of it: at the start of the input it seeks to a negative position and the run panics")
+			}
+		})
+	}
+	r.Floor(rule, "reads in front of the current position", n, 4)
+}
+
+// ---------------------------------------------------------------------------------------------
+// C15.R16: what separates tokens is what unicode.IsSpace says.
+//
+// The lexer asks unicode.IsSpace for every character outside a literal. A function of package ast that stands in for it (a
+// func(rune) bool that the scanning loop calls and from which unicode.IsSpace is reachable: a table for the common case, the
+// library for the rest) must give the same answer for every code point; it is folded, with the character fixed, for U+0000 to
+// U+3000 (the blanks of Unicode all lie below) and compared with the library. On a tree that asks the library directly there is
+// nothing to fold.
+func ruleBlankTestIsIsSpace(c *Ctx, rule string) {
+	r := c.R
+	la := c.lexerAnchors()
+	if la.err != "" {
+		r.Ob(rule, "anchor: the lexer's scanning loop", "").Und(la.err)
+		return
+	}
+	isSpace := func(fn *ssa.Function) bool {
+		return fn != nil && fn.Pkg != nil && fn.Pkg.Pkg.Path() == "unicode" && fn.Name() == "IsSpace"
+	}
+	direct := 0
+	cands := map[*ssa.Function]bool{}
+	instrsOf(la.fn, func(in ssa.Instruction) {
+		sc := staticCallee(in)
+		if sc == nil {
+			return
+		}
+		if isSpace(sc) {
+			direct++
+			return
+		}
+		if !c.isRepoFn(sc) || sc.Signature.Params().Len() != 1 || sc.Signature.Results().Len() != 1 || sc.Signature.Recv() != nil {
+			return
+		}
+		pt, ok := sc.Signature.Params().At(0).Type().Underlying().(*types.Basic)
+		rt, ok2 := sc.Signature.Results().At(0).Type().Underlying().(*types.Basic)
+		if !ok || !ok2 || pt.Kind() != types.Int32 || rt.Kind() != types.Bool {
+			return
+		}
+		for f := range c.Reachable(sc) {
+			if isSpace(f) {
+				cands[sc] = true
+			}
+		}
+	})
+	ob0 := r.Ob(rule, "the lexer's blank test", c.pos(la.fn.Pos()))
+	if direct == 0 && len(cands) == 0 {
+		ob0.Und("the scanning loop neither calls unicode.IsSpace nor a func(rune) bool that reaches it")
+		return
+	}
+	ob0.OK(fmt.Sprintf("%d direct call(s) of unicode.IsSpace, %d stand-in function(s)", direct, len(cands)))
+	for _, fn := range sortedFns(cands) {
+		ob := r.Ob(rule, fnName(fn)+" answers as unicode.IsSpace does", c.pos(fn.Pos()))
+		var wrong []string
+		unknown := ""
+		for ch := rune(0); ch <= 0x3000 && unknown == ""; ch++ {
+			w := &World{Fn: fn,
+				Call: func(call *ssa.Call, get func(ssa.Value) wLat) (wLat, bool) {
+					if sc := call.Call.StaticCallee(); isSpace(sc) && len(call.Call.Args) == 1 {
+						if a := get(call.Call.Args[0]); a.k == 1 {
+							v, _ := constant.Int64Val(a.v)
+							return wBool(unicode.IsSpace(rune(v))), true
+						}
+					}
+					return wLat{}, false
+				},
+				Interp: func(f *ssa.Function) bool { return c.isRepoFn(f) && pureFunc(f, 0) },
+			}
+			w.Run(wConst(constant.MakeInt64(int64(ch))))
+			var res wLat
+			for _, b := range fn.Blocks {
+				if !w.Reach[b] {
+					continue
+				}
+				if ret, ok := b.Instrs[len(b.Instrs)-1].(*ssa.Return); ok && len(ret.Results) == 1 {
+					l := w.get(ret.Results[0])
+					if l.k == 0 {
+						l = wTop
+					}
+					res = res.join(l)
+				}
+			}
+			if res.k != 1 || res.v.Kind() != constant.Bool {
+				unknown = fmt.Sprintf("U+%04X does not fold", ch)
+				break
+			}
+			if constant.BoolVal(res.v) != unicode.IsSpace(ch) {
+				wrong = append(wrong, fmt.Sprintf("U+%04X", ch))
+			}
+		}
+		switch {
+		case unknown != "":
+			ob.Und(unknown)
+		case len(wrong) > 0:
+			ob.Bad("differs from unicode.IsSpace for " + strings.Join(wrong, ", ") + ": a program with such a blank between two tokens is read differently (or rejected) while the same program with a space is accepted")
+		default:
+			ob.OKnt("folded for U+0000..U+3000: the same answer as unicode.IsSpace everywhere")
+		}
+	}
+}
+
+// ---------------------------------------------------------------------------------------------
+// C14.R19 / C01.R19: a loop is generated from the bounds the program wrote.
+//
+// The function that builds a StartLoop reads Min, Max, Fewest, Name and Body of a loop node. Those reads must be of the node the
+// function was handed (its *ast.AstLoop parameter, a copy of it, or the same node seen from a closure): a node that a call
+// returned in its place (`l = flattenLoop(l)`: a loop of a loop rewritten as one loop with multiplied bounds) carries bounds the
+// program did not write, and the equivalence it rests on is an arithmetic claim that nothing here checks: UNDECIDED, not a violation.
+func ruleLoopBoundsAsWritten(c *Ctx, rule string) {
+	r := c.R
+	loopT := c.NamedType("ast", "AstLoop")
+	if loopT == nil {
+		r.Ob(rule, "anchor ast.AstLoop", "").Und("not found")
+		return
+	}
+	n := 0
+	for _, fn := range c.SrcFuncs("bytecode") {
+		builds := false
+		instrsOf(fn, func(in ssa.Instruction) {
+			if st, ok := in.(*ssa.Store); ok {
+				if fa, ok := st.Addr.(*ssa.FieldAddr); ok {
+					if nt, ok := deref(fa.X.Type()).(*types.Named); ok && nt.Obj().Name() == "StartLoop" {
+						builds = true
+					}
+				}
+			}
+		})
+		var loopP *ssa.Parameter
+		for _, p := range fn.Params {
+			if types.Identical(deref(p.Type()), loopT) {
+				loopP = p
+			}
+		}
+		if !builds || loopP == nil {
+			continue
+		}
+		n++
+		ob := r.Ob(rule, fnName(fn)+": the loop node that is read is the one that was handed in", c.pos(fn.Pos()))
+		bad, und := "", ""
+		// origin of a pointer to a loop node: 0 the parameter, 1 a call result, 2 unknown
+		var origin func(v ssa.Value, d int) (int, string)
+		origin = func(v ssa.Value, d int) (int, string) {
+			if d > 6 {
+				return 2, "too deep"
+			}
+			switch x := v.(type) {
+			case *ssa.Parameter:
+				if x == loopP {
+					return 0, ""
+				}
+				return 2, "another parameter"
+			case *ssa.FreeVar:
+				return 0, "" // the enclosing function's node (its own reads are judged there)
+			case *ssa.Call:
+				return 1, "the result of " + shortCallee(x) + " at " + c.pos(x.Pos())
+			case *ssa.Extract:
+				if call, ok := x.Tuple.(*ssa.Call); ok {
+					return 1, "a result of " + shortCallee(call) + " at " + c.pos(call.Pos())
+				}
+			case *ssa.Phi:
+				worst, why := 0, ""
+				for _, e := range x.Edges {
+					k, w := origin(e, d+1)
+					if k == 1 {
+						return k, w
+					}
+					if k > worst {
+						worst, why = k, w
+					}
+				}
+				return worst, why
+			case *ssa.Alloc:
+				// a copy of the node (`loop := *l`) or a local that holds the pointer
+				worst, why, nst := 0, "", 0
+				for _, ref := range *x.Referrers() {
+					if st, ok := ref.(*ssa.Store); ok && st.Addr == ssa.Value(x) {
+						nst++
+						k, w := origin(st.Val, d+1)
+						if k == 1 {
+							return k, w
+						}
+						if k > worst {
+							worst, why = k, w
+						}
+					}
+				}
+				if nst == 0 {
+					return 2, "a local that is filled field by field"
+				}
+				return worst, why
+			case *ssa.UnOp:
+				if x.Op == token.MUL {
+					return origin(x.X, d+1)
+				}
+			case *ssa.FieldAddr:
+				return origin(x.X, d+1)
+			}
+			return 2, fmt.Sprintf("%T", v)
+		}
+		scope := append([]*ssa.Function{fn}, fn.AnonFuncs...)
+		reads := 0
+		for _, f := range scope {
+			instrsOf(f, func(in ssa.Instruction) {
+				fa, ok := in.(*ssa.FieldAddr)
+				if !ok || !types.Identical(deref(fa.X.Type()), loopT) {
+					return
+				}
+				reads++
+				switch k, why := origin(fa.X, 0); k {
+				case 1:
+					if bad == "" {
+						bad = fmt.Sprintf("%s of the loop is read from %s", fieldName(loopT, fa.Field), why)
+					}
+				case 2:
+					if und == "" {
+						und = fmt.Sprintf("%s is read from a node whose origin cannot be followed (%s)", fieldName(loopT, fa.Field), why)
+					}
+				}
+			})
+		}
+		switch {
+		case bad != "":
+			// no witness that the rewritten node is wrong - only that its equivalence with the written one is an arithmetic claim
+			ob.Und(bad + ", not from the node the function was handed: the loop is generated with bounds (or a body) that the program did not write, and whether they mean the same is beyond a structural rule")
+		case und != "":
+			ob.Und(und)
+		default:
+			ob.OKnt(fmt.Sprintf("%d read(s) of the node's fields, all of the parameter", reads))
+		}
+	}
+	r.Floor(rule, "functions that build a StartLoop from a loop node", n, 1)
+}
+
+// ---------------------------------------------------------------------------------------------
+// C06.R9: the writer writes the text it is handed.
+//
+// searchReplace computes the splice - gap, replacement, gap, ..., tail - and advances its write cursor by the length of what it
+// hands to Writer.WriteAt. The method must therefore write that text itself: on every path the value that reaches the underlying
+// Write is the data parameter (through string/[]byte conversions). A text that a function made out of the data (line endings
+// re-spelt, an encoding changed) has another length than the cursor assumes, and the next piece overwrites its end. A value that
+// comes out of a buffer of the writer is UNDECIDED (a buffering writer can be right).
+func ruleWriterWritesWhatItIsHanded(c *Ctx, rule string) {
+	r := c.R
+	wT := c.NamedType("files", "Writer")
+	if wT == nil {
+		r.Ob(rule, "anchor files.Writer", "").Und("not found")
+		return
+	}
+	n := 0
+	for _, fn := range c.SrcFuncs("files") {
+		recv := fn.Signature.Recv()
+		if recv == nil || !types.Identical(deref(recv.Type()), wT) {
+			continue
+		}
+		var data *ssa.Parameter
+		for _, p := range fn.Params[1:] {
+			switch t := p.Type().Underlying().(type) {
+			case *types.Basic:
+				if t.Kind() == types.String {
+					data = p
+				}
+			case *types.Slice:
+				if bt, ok := t.Elem().Underlying().(*types.Basic); ok && bt.Kind() == types.Byte {
+					data = p
+				}
+			}
+		}
+		if data == nil {
+			continue
+		}
+		k := 0
+		instrsOf(fn, func(in ssa.Instruction) {
+			ci, ok := in.(ssa.CallInstruction)
+			if !ok {
+				return
+			}
+			com := ci.Common()
+			name := ""
+			if com.IsInvoke() {
+				name = com.Method.Name()
+			} else if sc := com.StaticCallee(); sc != nil && !c.isRepoFn(sc) {
+				name = sc.Name()
+			}
+			if name != "Write" && name != "WriteString" && name != "WriteAt" {
+				return
+			}
+			var arg ssa.Value
+			for _, a := range com.Args {
+				switch t := a.Type().Underlying().(type) {
+				case *types.Basic:
+					if t.Kind() == types.String {
+						arg = a
+					}
+				case *types.Slice:
+					arg = a
+				}
+			}
+			if arg == nil {
+				return
+			}
+			n++
+			k++
+			ob := r.Ob(rule, fmt.Sprintf("%s: write #%d puts out the text it was handed", fnName(fn), k), c.pos(in.Pos()))
+			made, other := "", ""
+			var walk func(v ssa.Value, d int)
+			seen := map[ssa.Value]bool{}
+			walk = func(v ssa.Value, d int) {
+				if seen[v] || d > 8 {
+					return
+				}
+				seen[v] = true
+				switch x := v.(type) {
+				case *ssa.Parameter:
+					if x != data {
+						other = "another parameter"
+					}
+				case *ssa.Convert:
+					walk(x.X, d+1)
+				case *ssa.ChangeType:
+					walk(x.X, d+1)
+				case *ssa.Phi:
+					for _, e := range x.Edges {
+						walk(e, d+1)
+					}
+				case *ssa.Call:
+					handed := false
+					for _, a := range x.Call.Args {
+						if a == ssa.Value(data) {
+							handed = true
+						}
+						if p, ok := a.(*ssa.Phi); ok {
+							for _, e := range p.Edges {
+								if e == ssa.Value(data) {
+									handed = true
+								}
+							}
+						}
+					}
+					if handed {
+						made = shortCallee(x) + " at " + c.pos(x.Pos())
+					} else {
+						other = "the result of " + shortCallee(x)
+					}
+				default:
+					other = exprStr(v)
+				}
+			}
+			walk(arg, 0)
+			switch {
+			case made != "":
+				ob.Bad("on some path what is written is what " + made + " made of the data, not the data: the caller advances its write cursor by the length of the text it handed in, so a text of another length is overwritten at its end (or leaves a gap)")
+			case other != "":
+				ob.Und("what is written comes from " + other)
+			default:
+				ob.OKnt("the data parameter itself, through conversions")
+			}
+		})
+	}
+	r.Floor(rule, "writes of files.Writer methods that take the text", n, 1)
+}
+
+// ---------------------------------------------------------------------------------------------
+// C18.R15: a question about the kind of a command can be answered yes.
+//
+// A type assertion (comma-ok or not) on a value of a repository interface asks for a concrete type. If no value of that type is
+// ever converted to the interface - the producers are inventoried over the whole program - the answer is always no: code that
+// decides on it (`-no-output` skips the run unless the program *has a replace command*) takes the same branch for every program.
+// The usual slip is pointer-ness: the commands are stored by value and the question asks for a pointer.
+func ruleAssertionsCanSucceed(c *Ctx, rule string, pkgs []string) {
+	r := c.R
+	prods := c.producersOf()
+	n := 0
+	for _, pkg := range pkgs {
+		for _, fn := range c.SrcFuncs(pkg) {
+			k := 0
+			instrsOf(fn, func(in ssa.Instruction) {
+				ta, ok := in.(*ssa.TypeAssert)
+				if !ok || types.IsInterface(ta.AssertedType) {
+					return
+				}
+				iface, ok := ta.X.Type().(*types.Named)
+				if !ok || !types.IsInterface(iface) || len(prods[iface]) == 0 {
+					return
+				}
+				n++
+				k++
+				want := types.TypeString(ta.AssertedType, shortQual)
+				ob := r.Ob(rule, fmt.Sprintf("%s: assertion #%d to %s can hold", fnName(fn), k, want), c.pos(ta.Pos()))
+				if _, ok := prods[iface][want]; ok {
+					ob.OKnt("values of that type are converted to " + iface.Obj().Name())
+					return
+				}
+				alt := strings.TrimPrefix(want, "*")
+				if !strings.HasPrefix(want, "*") {
+					alt = "*" + want
+				}
+				hint := ""
+				if _, ok := prods[iface][alt]; ok {
+					hint = " (" + alt + " is: pointer-ness mismatch)"
+				}
+				ob.Bad("no value of type " + want + " is ever converted to " + iface.Obj().Name() + hint + ": the assertion never holds, and what is decided on it is decided the same way for every program")
+			})
+		}
+	}
+	r.Ob(rule, "assertions on repository interfaces in "+strings.Join(pkgs, ", "), "").OK(fmt.Sprintf("%d examined", n))
+}
+
+// ---------------------------------------------------------------------------------------------
+// C17.R7: rendering does not change what it renders.
+//
+// "carries the match data unchanged", and Json and FormattedJson of one list agree: nothing reachable from the renderings
+// (MarshalJSON, Json, FormattedJson, Print of package engine) deletes from, or stores into, a map that it did not make itself.
+// A value receiver does not protect a map: `delete(v.Value, k)` on a copy of the struct empties the table the match holds.
+func ruleRenderingReadOnly(c *Ctx, rule string) {
+	r := c.R
+	var roots []*ssa.Function
+	for _, fn := range c.SrcFuncs("engine") {
+		switch fn.Name() {
+		case "MarshalJSON", "Json", "FormattedJson", "Print":
+			if fn.Signature.Recv() != nil {
+				roots = append(roots, fn)
+			}
+		}
+	}
+	if len(roots) == 0 {
+		r.Ob(rule, "anchor: the renderings of package engine", "").Und("no MarshalJSON/Json/FormattedJson/Print method found")
+		return
+	}
+	reach := c.Reachable(roots...)
+	for _, f := range roots {
+		reach[f] = true
+	}
+	madeHere := func(v ssa.Value) bool {
+		for d := 0; d < 6; d++ {
+			switch x := v.(type) {
+			case *ssa.MakeMap:
+				return true
+			case *ssa.Phi:
+				for _, e := range x.Edges {
+					if _, ok := e.(*ssa.MakeMap); !ok {
+						return false
+					}
+				}
+				return len(x.Edges) > 0
+			case *ssa.UnOp:
+				if al, ok := x.X.(*ssa.Alloc); ok && x.Op == token.MUL {
+					// a local that holds the map: every store into it is a map made here
+					n := 0
+					for _, ref := range *al.Referrers() {
+						if st, ok := ref.(*ssa.Store); ok && st.Addr == ssa.Value(al) {
+							n++
+							if _, ok := st.Val.(*ssa.MakeMap); !ok {
+								return false
+							}
+						}
+					}
+					return n > 0
+				}
+				return false
+			case *ssa.ChangeType:
+				v = x.X
+			default:
+				return false
+			}
+		}
+		return false
+	}
+	// whose data is it? the receivers of the renderings are the data being rendered; a parameter (or captured variable) of a
+	// function reached from there is the data as well when some call hands it something that is reached from such a value
+	foreign := map[ssa.Value]bool{}
+	for _, f := range roots {
+		if len(f.Params) > 0 {
+			foreign[f.Params[0]] = true
+		}
+	}
+	var rootOf func(v ssa.Value) ssa.Value
+	rootOf = func(v ssa.Value) ssa.Value {
+		root := traceAddr(v).Root
+		if f, ok := root.(*ssa.Field); ok {
+			root = f.X
+		}
+		if al, ok := root.(*ssa.Alloc); ok {
+			// a spilled parameter: the copy of the struct shares its maps with the original
+			for _, ref := range *al.Referrers() {
+				if st, ok := ref.(*ssa.Store); ok && st.Addr == ssa.Value(al) {
+					if p, isParam := st.Val.(*ssa.Parameter); isParam {
+						return p
+					}
+				}
+			}
+		}
+		if u, ok := root.(*ssa.UnOp); ok && u.Op == token.MUL {
+			return rootOf(u.X)
+		}
+		return root
+	}
+	for changed := true; changed; {
+		changed = false
+		for fn := range reach {
+			if !c.isRepoFn(fn) {
+				continue
+			}
+			instrsOf(fn, func(in ssa.Instruction) {
+				switch x := in.(type) {
+				case *ssa.Call:
+					sc := x.Call.StaticCallee()
+					if sc == nil || !c.isRepoFn(sc) {
+						return
+					}
+					for i, a := range x.Call.Args {
+						if i < len(sc.Params) && !foreign[sc.Params[i]] && (foreign[a] || foreign[rootOf(a)]) {
+							foreign[sc.Params[i]] = true
+							changed = true
+						}
+					}
+				case *ssa.MakeClosure:
+					if f, ok := x.Fn.(*ssa.Function); ok {
+						for i, b := range x.Bindings {
+							if i < len(f.FreeVars) && !foreign[f.FreeVars[i]] && (foreign[b] || foreign[rootOf(b)]) {
+								foreign[f.FreeVars[i]] = true
+								changed = true
+							}
+						}
+					}
+				}
+			})
+		}
+	}
+	n, k := 0, 0
+	for _, fn := range sortedFns(reach) {
+		if !c.isRepoFn(fn) || shortName(pkgPathOf(fn)) != "engine" {
+			continue
+		}
+		n++
+		instrsOf(fn, func(in ssa.Instruction) {
+			var m ssa.Value
+			what := ""
+			switch x := in.(type) {
+			case *ssa.MapUpdate:
+				m, what = x.Map, "stores into"
+			case *ssa.Call:
+				if bi, ok := x.Call.Value.(*ssa.Builtin); ok && bi.Name() == "delete" && len(x.Call.Args) > 0 {
+					m, what = x.Call.Args[0], "deletes from"
+				}
+			}
+			if m == nil || madeHere(m) {
+				return
+			}
+			root := rootOf(m)
+			if _, isGlobal := root.(*ssa.Global); !isGlobal && !foreign[root] {
+				return
+			}
+			k++
+			r.Ob(rule, fmt.Sprintf("%s: write #%d goes to a map made for the output", fnName(fn), k), c.pos(in.Pos())).
+				Bad("a function reachable from the renderings " + what + " " + exprStr(m) + ", a map of the data that is being rendered: rendering changes what it renders (a value receiver copies the struct, not the table), so a second rendering - or the formatted one after the compact one - gives another document")
+		})
+	}
+	r.Ob(rule, "functions of package engine reachable from the renderings", "").OK(fmt.Sprintf("%d examined for writes into maps they did not make", n))
+	r.Floor(rule, "functions reachable from the renderings", n, 3)
 }
